@@ -180,14 +180,33 @@ func main() {
 
 	// ---- small-field stand-in -------------------------------------------------------------------------
 	if small {
-		for _, n := range []string{"element.go", "reduce.go", "fe_invert.go", "fe_expPMin3Div4.go"} {
-			delete(cur["internal/field"], n)
-			repl[filepath.Join(*repo, "internal/field", n)] = ""
-		}
-
 		ents, err := os.ReadDir(filepath.Join(*verif, "inject/smallfield"))
 		if err != nil {
 			die("%v", err)
+		}
+
+		// every file of internal/field that declares something the stand-in declares (the Element type, one of its
+		// methods, New, the word helpers, the size constants) is taken out of the build - by content, not by file
+		// name, so that a tree with reorganised files still gets its scaled-down instance
+		standIn := map[string]bool{}
+
+		for _, e := range ents {
+			if strings.HasSuffix(e.Name(), ".go") {
+				for n := range declaredNames(filepath.Join(*verif, "inject/smallfield", e.Name())) {
+					standIn[n] = true
+				}
+			}
+		}
+
+		for _, n := range sortedKeys(cur["internal/field"]) {
+			for name := range declaredNames(cur["internal/field"][n]) {
+				if standIn[name] && name != "init" {
+					delete(cur["internal/field"], n)
+					repl[filepath.Join(*repo, "internal/field", n)] = ""
+
+					break
+				}
+			}
 		}
 
 		for _, e := range ents {
@@ -203,23 +222,31 @@ func main() {
 
 	// ---- exponent-domain variant ----------------------------------------------------------------------
 	if expPkg != "" {
-		fiat := "secp256k1montgomery.go"
-		if expPkg == "internal/scalar" {
-			fiat = "secp256k1montgomeryscalar.go"
+		// the file(s) that declare the top-level functions Mul and Square (one generated file in the pinned tree;
+		// a reorganised tree may have them elsewhere): their declarations are renamed away, so that the
+		// exponent-domain Mul / Square of inject/expdomain take their place under the unmodified chain sources
+		found := 0
+
+		for _, fn := range sortedKeys(cur[expPkg]) {
+			path := cur[expPkg][fn]
+			if !declaresFunc(path, "Mul") && !declaresFunc(path, "Square") {
+				continue
+			}
+
+			gen := filepath.Join(*out, "exp_"+fn)
+			if err := renameFuncs(path, gen, map[string]string{"Mul": "fiatMul", "Square": "fiatSquare"}); err != nil {
+				die("exponent-domain copy of %s: %v", path, err)
+			}
+
+			cur[expPkg][fn] = gen
+			repl[filepath.Join(*repo, expPkg, fn)] = gen
+			found++
 		}
 
-		path := cur[expPkg][fiat]
-		if path == "" {
-			die("Fiat file %s not found in %s", fiat, expPkg)
+		if found == 0 {
+			fmt.Fprintf(os.Stderr, "mkoverlay: VARIANT-NOT-APPLICABLE no top-level Mul/Square in %s\n", expPkg)
+			os.Exit(3)
 		}
-
-		gen := filepath.Join(*out, "exp_"+fiat)
-		if err := renameFuncs(path, gen, map[string]string{"Mul": "fiatMul", "Square": "fiatSquare"}); err != nil {
-			die("%v", err)
-		}
-
-		cur[expPkg][fiat] = gen
-		repl[filepath.Join(*repo, expPkg, fiat)] = gen
 
 		pkgName := "field"
 		if expPkg == "internal/scalar" {
@@ -378,18 +405,29 @@ func main() {
 	var covProp []int
 
 	if carryCov {
-		for _, fp := range []struct{ dir, file, pkg string }{
-			{"internal/field", "secp256k1montgomery.go", "field"}, {"internal/scalar", "secp256k1montgomeryscalar.go", "scalar"},
-		} {
-			path := cur[fp.dir][fp.file]
-			gen := filepath.Join(*out, "cov_"+fp.file)
+		for _, fp := range []struct{ dir, pkg string }{{"internal/field", "field"}, {"internal/scalar", "scalar"}} {
+			for _, fn := range sortedKeys(cur[fp.dir]) {
+				path := cur[fp.dir][fn]
 
-			if err := instrumentCarries(path, gen, fp.pkg, &covNames, &covProp); err != nil {
-				die("carry instrumentation of %s: %v", path, err)
+				b, err := os.ReadFile(path)
+				if err != nil || !(bytes.Contains(b, []byte("bits.Add64(")) || bytes.Contains(b, []byte("bits.Sub64("))) || !declaresFunc(path, "") {
+					continue
+				}
+
+				// only the generated arithmetic (functions Mul, Square, Add, ... with x<N> variables); hand-written
+				// helpers that happen to use bits.Sub64 keep their own source
+				if !declaresFunc(path, "Mul") && !declaresFunc(path, "Add") && !declaresFunc(path, "FromMontgomery") && !declaresFunc(path, "ToMontgomery") {
+					continue
+				}
+
+				gen := filepath.Join(*out, "cov_"+fp.pkg+"_"+fn)
+				if err := instrumentCarries(path, gen, fp.pkg, &covNames, &covProp); err != nil {
+					die("carry instrumentation of %s: %v", path, err)
+				}
+
+				cur[fp.dir][fn] = gen
+				repl[filepath.Join(*repo, fp.dir, fn)] = gen
 			}
-
-			cur[fp.dir][fp.file] = gen
-			repl[filepath.Join(*repo, fp.dir, fp.file)] = gen
 		}
 	}
 
@@ -1012,6 +1050,64 @@ func recvName(e ast.Expr) string {
 	}
 
 	return "?"
+}
+
+// declaredNames returns the top-level names a file declares: functions, methods as "Recv.Name", types, constants
+// and variables.
+func declaredNames(path string) map[string]bool {
+	out := map[string]bool{}
+
+	f, err := parser.ParseFile(token.NewFileSet(), path, nil, parser.SkipObjectResolution)
+	if err != nil {
+		return out
+	}
+
+	for _, d := range f.Decls {
+		switch x := d.(type) {
+		case *ast.FuncDecl:
+			if x.Recv != nil && len(x.Recv.List) == 1 {
+				out[recvName(x.Recv.List[0].Type)+"."+x.Name.Name] = true
+			} else {
+				out[x.Name.Name] = true
+			}
+		case *ast.GenDecl:
+			for _, sp := range x.Specs {
+				switch y := sp.(type) {
+				case *ast.TypeSpec:
+					out[y.Name.Name] = true
+				case *ast.ValueSpec:
+					for _, id := range y.Names {
+						if id.Name != "_" {
+							out[id.Name] = true
+						}
+					}
+				}
+			}
+		}
+	}
+
+	return out
+}
+
+// declaresFunc reports whether the file declares a top-level function (not a method) of that name; with an empty
+// name, whether it parses at all.
+func declaresFunc(path, name string) bool {
+	f, err := parser.ParseFile(token.NewFileSet(), path, nil, parser.SkipObjectResolution)
+	if err != nil {
+		return false
+	}
+
+	if name == "" {
+		return true
+	}
+
+	for _, d := range f.Decls {
+		if fd, ok := d.(*ast.FuncDecl); ok && fd.Recv == nil && fd.Name.Name == name {
+			return true
+		}
+	}
+
+	return false
 }
 
 // renameFuncs writes a copy of path in which the named top-level functions are renamed (declarations and all
